@@ -28,19 +28,36 @@
      `tree_TU_partial`: for a tree accepted by `checkTree` in which child ids are larger than parent ids (what
      `parseNode` produces, but *not* checked by `checkTree` — hence `_partial`), all nodes are ternary with entries in
      {-1,0,1}, no Δ-, Y- or 3-sum node occurs and all leaves are TU, every node is TU.
+  5. Δ-sum and Y-sum nodes of ternary trees (`deltasum_node_TU`, `ysum_node_TU`): from `C03.deltasum_recomposes` /
+     `C03.ysum_recomposes` (the checker composes the children with `composeDelta` / `composeY` at the recorded special
+     lines and compares with the node's matrix read along permutations `rho`, `kap`), the closure theorems
+     `C12Delta.composeDelta_TU` / `C12Delta.composeY_TU` and `C10.tu_P`.  The shape facts (`deltasum_shape`,
+     `ysum_shape`: `(m0-1)+(m1-1) = numRows`, `(n0-2)+(n1-2) = numCols`, resp. `(m0-2)+(m1-2)`, `(n0-1)+(n1-1)`) do
+     *not* come from the `keepMapped` lengths as for 2-sums — the checker drops every line listed in `specialRows` /
+     `specialCols`, and nothing bounds the length of these lists — but from `P = sub M rho kap` and the well-formedness
+     of both sides (`composed_shape`); the column equation holds only if the node has a row (counterexample: last
+     example of the file), and a node without rows is TU anyway (`isTU_zero_rows`).
+     The closure predicate with the two new constructors is a *new* inductive type `Certified3` (so `Certified` and
+     everything proved about it is unchanged; `certified3_of_certified` embeds it), with `certified3_TU`,
+     `certified3_TU_mathlib`, `certified3Id_TU` and `tree_TU_partial3` (as `tree_TU_partial`, node types deltasum and
+     ysum allowed).
 
-  Out of scope: Δ-sum, Y-sum and 3-sum nodes (TU closure of these sums is not proved in this project), pivot nodes
-  of binary trees (a GF(2) pivot does not preserve total unimodularity of the 0/1 matrix; it preserves regularity,
-  which is not the subject here), and the total unimodularity of the leaves.
+  Out of scope: 3-sum nodes of Truemper's form (type `threesum`, composed by `compose3`): the TU closure of `compose3`
+  is not proved in this project, so `Certified3` has no constructor for them and `tree_TU_partial3` excludes them;
+  Δ- and Y-sum nodes of binary trees (`composeDelta 2` / `composeY 2` reduce modulo 2; closure is proved only for
+  `ch = 3`); pivot nodes of binary trees (a GF(2) pivot does not preserve total unimodularity of the 0/1 matrix; it
+  preserves regularity, which is not the subject here); and the total unimodularity of the leaves.
 
   Hypotheses that had to be added, and why:
     * `isTernary nd.matrix.toDense` for series-parallel and pivot nodes (a unit line with entry 2 is accepted by
       `applyReductions`; `pivots3` reduces modulo 3);
-    * `nd.ternary = true` for 2-sum and pivot nodes (the field decides which composition / pivot the checker uses);
+    * `nd.ternary = true` for 2-sum, Δ-sum, Y-sum and pivot nodes (the field decides which composition / pivot the
+      checker uses);
     * for 2-sum nodes of binary trees: the children are 0/1 matrices (`compose2a 2` reduces modulo 2).
 -/
 import CmrProofs.Props.C03
 import CmrProofs.Props.C10
+import CmrProofs.Props.C12Delta
 
 set_option linter.unusedSimpArgs false
 set_option linter.unusedVariables false
@@ -462,6 +479,225 @@ theorem tree_TU_partial {nodes : List FNode} (hT : checkTree nodes = .ok ())
   have := key _ nd hm (Nat.le_refl _)
   exact ⟨this, certified_TU this⟩
 
+/-! ### 5. Δ-sum and Y-sum nodes of ternary trees -/
+
+/-- a matrix without rows is totally unimodular -/
+theorem isTU_zero_rows (n : Nat) (M : Mat) : isTU 0 n M = true := by
+  rw [isTU_iff]
+  exact Matrix.emptyRows_isTotallyUnimodular _
+
+/-- the shape of a well-formed matrix is determined by the matrix, except for the column count of a matrix without
+rows -/
+theorem wf_dims {M : Mat} {m n m' n' : Nat} (h : M.wf m n = true) (h' : M.wf m' n' = true) :
+    m = m' ∧ (0 < m → n = n') := by
+  simp only [Mat.wf, Bool.and_eq_true, beq_iff_eq, List.all_eq_true] at h h'
+  obtain ⟨h1, h2⟩ := h
+  obtain ⟨h1', h2'⟩ := h'
+  refine ⟨h1.symm.trans h1', fun hm => ?_⟩
+  cases M with
+  | nil => simp at h1; omega
+  | cons r rest =>
+    have a := h2 r (List.mem_cons_self ..)
+    have b := h2' r (List.mem_cons_self ..)
+    omega
+
+/-- If the composed matrix `P` (well formed of shape `R × C`) equals the node's matrix read along permutations of its
+rows and columns, then `R` is the node's row count and, unless the node has no rows, `C` is its column count.
+(For Δ- and Y-sum nodes the shape cannot be read off the `keepMapped` lengths as for 2-sums: the checker drops *all*
+lines listed in `specialRows` / `specialCols`, and these lists may be longer than the one/two entries that
+`composeDelta` / `composeY` use; the shape is forced only through `P = sub M rho kap`.  With zero rows the column
+counts may indeed differ, see the last example of the file.) -/
+theorem composed_shape {nd : FNode} {P : Mat} {R C : Nat} {rho kap : List Nat} (hwf : P.wf R C = true)
+    (p1 : isPerm rho nd.matrix.numRows = true) (p2 : isPerm kap nd.matrix.numCols = true)
+    (hM : P = sub nd.matrix.toDense rho kap) :
+    R = nd.matrix.numRows ∧ (0 < nd.matrix.numRows → C = nd.matrix.numCols) := by
+  have hs : (sub nd.matrix.toDense rho kap).wf rho.length kap.length = true := by simp [Mat.wf, sub]
+  rw [← hM] at hs
+  obtain ⟨e1, e2⟩ := wf_dims hwf hs
+  have l1 := (C03.isPerm_spec p1).2.1
+  have l2 := (C03.isPerm_spec p2).2.1
+  exact ⟨e1.trans l1, fun h => (e2 (by omega)).trans l2⟩
+
+/-- common last step of the sum nodes: TU of the composed matrix transfers to the node's matrix -/
+theorem sum_node_TU_of_composed {nd : FNode} {P : Mat} {R C : Nat} {rho kap : List Nat}
+    (hwf : P.wf R C = true) (hTU : isTU R C P = true)
+    (p1 : isPerm rho nd.matrix.numRows = true) (p2 : isPerm kap nd.matrix.numCols = true)
+    (hM : P = sub nd.matrix.toDense rho kap) :
+    isTU nd.matrix.numRows nd.matrix.numCols nd.matrix.toDense = true := by
+  obtain ⟨e1, e2⟩ := composed_shape hwf p1 p2 hM
+  by_cases hR : nd.matrix.numRows = 0
+  · rw [hR]
+    exact isTU_zero_rows _ _
+  · rw [e1, e2 (by omega), hM, isTU_sub_perm (toDense_wf _) p1 p2] at hTU
+    exact hTU
+
+/-- what the checker guarantees at a Δ-sum node, with the shapes made explicit (the analogue of `twosum_shape`; the
+column equation needs a node with at least one row) -/
+theorem deltasum_shape {nodes : List FNode} {nd : FNode} (h : checkRecompose nodes nd = .ok ())
+    (ht : nd.type = NodeType.deltasum) :
+    ∃ c0 k0 c1 k1, nd.children = [c0, c1] ∧ findNode nodes c0.child = some k0 ∧ findNode nodes c1.child = some k1 ∧
+      ∃ a b c d e f P rho kap,
+        composeDelta (chOf nd) k0.matrix.numRows k0.matrix.numCols k0.matrix.toDense k1.matrix.numRows k1.matrix.numCols
+          k1.matrix.toDense a b c d e f = .ok P ∧
+        isPerm rho nd.matrix.numRows = true ∧ isPerm kap nd.matrix.numCols = true ∧
+        P = sub nd.matrix.toDense rho kap ∧
+        (k0.matrix.numRows - 1) + (k1.matrix.numRows - 1) = nd.matrix.numRows ∧
+        (0 < nd.matrix.numRows → (k0.matrix.numCols - 2) + (k1.matrix.numCols - 2) = nd.matrix.numCols) := by
+  obtain ⟨c0, k0, c1, k1, hc, hf0, hf1, a, b, c, d, e, f, _, _, _, _, _, _, P, rho, kap, hP, p1, p2, hM, _⟩ :=
+    C03.deltasum_recomposes h ht
+  obtain ⟨e1, e2⟩ := composed_shape (C12.composeDelta_wf hP) p1 p2 hM
+  exact ⟨c0, k0, c1, k1, hc, hf0, hf1, a, b, c, d, e, f, P, rho, kap, hP, p1, p2, hM, e1, e2⟩
+
+/-- what the checker guarantees at a Y-sum node, with the shapes made explicit -/
+theorem ysum_shape {nodes : List FNode} {nd : FNode} (h : checkRecompose nodes nd = .ok ())
+    (ht : nd.type = NodeType.ysum) :
+    ∃ c0 k0 c1 k1, nd.children = [c0, c1] ∧ findNode nodes c0.child = some k0 ∧ findNode nodes c1.child = some k1 ∧
+      ∃ a b c d e f P rho kap,
+        composeY (chOf nd) k0.matrix.numRows k0.matrix.numCols k0.matrix.toDense k1.matrix.numRows k1.matrix.numCols
+          k1.matrix.toDense a b c d e f = .ok P ∧
+        isPerm rho nd.matrix.numRows = true ∧ isPerm kap nd.matrix.numCols = true ∧
+        P = sub nd.matrix.toDense rho kap ∧
+        (k0.matrix.numRows - 2) + (k1.matrix.numRows - 2) = nd.matrix.numRows ∧
+        (0 < nd.matrix.numRows → (k0.matrix.numCols - 1) + (k1.matrix.numCols - 1) = nd.matrix.numCols) := by
+  obtain ⟨c0, k0, c1, k1, hc, hf0, hf1, a, b, c, d, e, f, _, _, _, _, _, _, P, rho, kap, hP, p1, p2, hM, _⟩ :=
+    C03.ysum_recomposes h ht
+  obtain ⟨e1, e2⟩ := composed_shape (C12.composeY_wf hP) p1 p2 hM
+  exact ⟨c0, k0, c1, k1, hc, hf0, hf1, a, b, c, d, e, f, P, rho, kap, hP, p1, p2, hM, e1, e2⟩
+
+/-- **Δ-sum node of a ternary tree**: if both children are totally unimodular, so is the node
+(`C12Delta.composeDelta_TU`). -/
+theorem deltasum_node_TU {nodes : List FNode} {nd : FNode} (h : checkRecompose nodes nd = .ok ())
+    (ht : nd.type = NodeType.deltasum) (hf : nd.ternary = true)
+    (hchild : ∀ ci ∈ nd.children, ∀ k, findNode nodes ci.child = some k →
+      isTU k.matrix.numRows k.matrix.numCols k.matrix.toDense = true) :
+    isTU nd.matrix.numRows nd.matrix.numCols nd.matrix.toDense = true := by
+  obtain ⟨c0, k0, c1, k1, hc, hf0, hf1, a, b, c, d, e, f, P, rho, kap, hP, p1, p2, hM, _, _⟩ := deltasum_shape h ht
+  have hch : chOf nd = 3 := by simp [chOf, hf]
+  rw [hch] at hP
+  have h0 := hchild c0 (by rw [hc]; simp) k0 hf0
+  have h1 := hchild c1 (by rw [hc]; simp) k1 hf1
+  exact sum_node_TU_of_composed (C12.composeDelta_wf hP) (C12Delta.composeDelta_TU hP h0 h1) p1 p2 hM
+
+/-- **Y-sum node of a ternary tree**: if both children are totally unimodular, so is the node
+(`C12Delta.composeY_TU`). -/
+theorem ysum_node_TU {nodes : List FNode} {nd : FNode} (h : checkRecompose nodes nd = .ok ())
+    (ht : nd.type = NodeType.ysum) (hf : nd.ternary = true)
+    (hchild : ∀ ci ∈ nd.children, ∀ k, findNode nodes ci.child = some k →
+      isTU k.matrix.numRows k.matrix.numCols k.matrix.toDense = true) :
+    isTU nd.matrix.numRows nd.matrix.numCols nd.matrix.toDense = true := by
+  obtain ⟨c0, k0, c1, k1, hc, hf0, hf1, a, b, c, d, e, f, P, rho, kap, hP, p1, p2, hM, _, _⟩ := ysum_shape h ht
+  have hch : chOf nd = 3 := by simp [chOf, hf]
+  rw [hch] at hP
+  have h0 := hchild c0 (by rw [hc]; simp) k0 hf0
+  have h1 := hchild c1 (by rw [hc]; simp) k1 hf1
+  exact sum_node_TU_of_composed (C12.composeY_wf hP) (C12Delta.composeY_TU hP h0 h1) p1 p2 hM
+
+/-- Inductive closure as `Certified`, extended by Δ-sum and Y-sum nodes of ternary trees (a new predicate, so that
+`Certified` and the theorems about it stay as they are; `certified3_of_certified` embeds the old one).  3-sum nodes
+(type `threesum`) are still not covered. -/
+inductive Certified3 (nodes : List FNode) : FNode → Prop
+  | base {nd : FNode} (hTU : isTU nd.matrix.numRows nd.matrix.numCols nd.matrix.toDense = true) : Certified3 nodes nd
+  | sp {nd : FNode} (h : checkRecompose nodes nd = .ok ()) (ht : nd.type = NodeType.seriesParallel)
+      (hter : isTernary nd.matrix.toDense = true)
+      (hkids : ∀ ci ∈ nd.children, ∀ k, findNode nodes ci.child = some k → Certified3 nodes k) : Certified3 nodes nd
+  | onesum {nd : FNode} (h : checkRecompose nodes nd = .ok ()) (ht : nd.type = NodeType.onesum)
+      (hkids : ∀ ci ∈ nd.children, ∀ k, findNode nodes ci.child = some k → Certified3 nodes k) : Certified3 nodes nd
+  | twosum {nd : FNode} (h : checkRecompose nodes nd = .ok ()) (ht : nd.type = NodeType.twosum)
+      (hf : nd.ternary = true)
+      (hkids : ∀ ci ∈ nd.children, ∀ k, findNode nodes ci.child = some k → Certified3 nodes k) : Certified3 nodes nd
+  | twosumBinary {nd : FNode} (h : checkRecompose nodes nd = .ok ()) (ht : nd.type = NodeType.twosum)
+      (hf : nd.ternary = false)
+      (hbin : ∀ ci ∈ nd.children, ∀ k, findNode nodes ci.child = some k → isBinary k.matrix.toDense = true)
+      (hkids : ∀ ci ∈ nd.children, ∀ k, findNode nodes ci.child = some k → Certified3 nodes k) : Certified3 nodes nd
+  | pivots {nd : FNode} (h : checkRecompose nodes nd = .ok ()) (ht : nd.type = NodeType.pivots)
+      (hf : nd.ternary = true) (hter : isTernary nd.matrix.toDense = true)
+      (hkids : ∀ ci ∈ nd.children, ∀ k, findNode nodes ci.child = some k → Certified3 nodes k) : Certified3 nodes nd
+  | deltasum {nd : FNode} (h : checkRecompose nodes nd = .ok ()) (ht : nd.type = NodeType.deltasum)
+      (hf : nd.ternary = true)
+      (hkids : ∀ ci ∈ nd.children, ∀ k, findNode nodes ci.child = some k → Certified3 nodes k) : Certified3 nodes nd
+  | ysum {nd : FNode} (h : checkRecompose nodes nd = .ok ()) (ht : nd.type = NodeType.ysum)
+      (hf : nd.ternary = true)
+      (hkids : ∀ ci ∈ nd.children, ∀ k, findNode nodes ci.child = some k → Certified3 nodes k) : Certified3 nodes nd
+
+theorem certified3_of_certified {nodes : List FNode} {nd : FNode} (hc : Certified nodes nd) : Certified3 nodes nd := by
+  induction hc with
+  | base hTU => exact .base hTU
+  | sp h ht hter _ ih => exact .sp h ht hter ih
+  | onesum h ht _ ih => exact .onesum h ht ih
+  | twosum h ht hf _ ih => exact .twosum h ht hf ih
+  | twosumBinary h ht hf hbin _ ih => exact .twosumBinary h ht hf hbin ih
+  | pivots h ht hf hter _ ih => exact .pivots h ht hf hter ih
+
+/-- **Partial TU certification of a decomposition tree, with Δ- and Y-sum nodes**: every `Certified3` node is totally
+unimodular. -/
+theorem certified3_TU {nodes : List FNode} {nd : FNode} (hc : Certified3 nodes nd) :
+    isTU nd.matrix.numRows nd.matrix.numCols nd.matrix.toDense = true := by
+  induction hc with
+  | base hTU => exact hTU
+  | sp h ht hter _ ih => exact C03.sp_node_TU_partial h ht hter ih
+  | onesum h ht _ ih => exact onesum_node_TU h ht ih
+  | twosum h ht hf _ ih => exact twosum_node_TU h ht hf ih
+  | twosumBinary h ht hf hbin _ ih => exact twosum_node_TU_binary_partial h ht hf hbin ih
+  | pivots h ht hf hter _ ih => exact pivot_node_TU h ht hf hter ih
+  | deltasum h ht hf _ ih => exact deltasum_node_TU h ht hf ih
+  | ysum h ht hf _ ih => exact ysum_node_TU h ht hf ih
+
+/-- … in Mathlib's sense. -/
+theorem certified3_TU_mathlib {nodes : List FNode} {nd : FNode} (hc : Certified3 nodes nd) :
+    (toMx nd.matrix.numRows nd.matrix.numCols nd.matrix.toDense).IsTotallyUnimodular :=
+  (isTU_iff _ _ _).mp (certified3_TU hc)
+
+def Certified3Id (nodes : List FNode) (i : Nat) : Prop := ∃ nd, findNode nodes i = some nd ∧ Certified3 nodes nd
+
+theorem certified3Id_TU {nodes : List FNode} {i : Nat} (hc : Certified3Id nodes i) :
+    ∃ nd, findNode nodes i = some nd ∧ isTU nd.matrix.numRows nd.matrix.numCols nd.matrix.toDense = true := by
+  obtain ⟨nd, hf, h⟩ := hc
+  exact ⟨nd, hf, certified3_TU h⟩
+
+/-- **A whole tree, Δ- and Y-sum nodes allowed** (partial for the same reason as `tree_TU_partial`: the ordering
+invariant `hord` is not checked by `checkTree`).  In a ternary tree accepted by `checkTree` all of whose matrices have
+entries in {-1,0,1}, without 3-sum nodes (type `threesum`), and whose leaves are totally unimodular, every node is
+totally unimodular. -/
+theorem tree_TU_partial3 {nodes : List FNode} (hT : checkTree nodes = .ok ())
+    (hord : ∀ nd ∈ nodes, ∀ ci ∈ nd.children, nd.id < ci.child)
+    (hfield : ∀ nd ∈ nodes, nd.ternary = true ∧ isTernary nd.matrix.toDense = true)
+    (htypes : ∀ nd ∈ nodes, nd.type ∈ leafTypes ∨ nd.type = NodeType.seriesParallel ∨ nd.type = NodeType.pivots ∨
+      nd.type = NodeType.onesum ∨ nd.type = NodeType.twosum ∨ nd.type = NodeType.deltasum ∨ nd.type = NodeType.ysum)
+    (hleaf : ∀ nd ∈ nodes, nd.type ∈ leafTypes → isTU nd.matrix.numRows nd.matrix.numCols nd.matrix.toDense = true) :
+    ∀ nd ∈ nodes, Certified3 nodes nd ∧ isTU nd.matrix.numRows nd.matrix.numCols nd.matrix.toDense = true := by
+  have step : ∀ nd ∈ nodes, (∀ ci ∈ nd.children, ∀ k, findNode nodes ci.child = some k → Certified3 nodes k) →
+      Certified3 nodes nd := by
+    intro nd hm hkids
+    have hrec := (C03.checkTree_all_nodes hT nd hm).1
+    rcases htypes nd hm with ht | ht | ht | ht | ht | ht | ht
+    · exact Certified3.base (hleaf nd hm ht)
+    · exact Certified3.sp hrec ht (hfield nd hm).2 hkids
+    · exact Certified3.pivots hrec ht (hfield nd hm).1 (hfield nd hm).2 hkids
+    · exact Certified3.onesum hrec ht hkids
+    · exact Certified3.twosum hrec ht (hfield nd hm).1 hkids
+    · exact Certified3.deltasum hrec ht (hfield nd hm).1 hkids
+    · exact Certified3.ysum hrec ht (hfield nd hm).1 hkids
+  have key : ∀ d, ∀ nd ∈ nodes, maxId nodes - nd.id ≤ d → Certified3 nodes nd := by
+    intro d
+    induction d with
+    | zero =>
+      intro nd hm hd
+      refine step nd hm (fun ci hci k hk => ?_)
+      obtain ⟨hkm, hid⟩ := findNode_spec hk
+      have := hord nd hm ci hci
+      have := le_maxId hkm
+      omega
+    | succ d ih =>
+      intro nd hm hd
+      refine step nd hm (fun ci hci k hk => ?_)
+      obtain ⟨hkm, hid⟩ := findNode_spec hk
+      have := hord nd hm ci hci
+      have := le_maxId hkm
+      exact ih k hkm (by omega)
+  intro nd hm
+  have := key _ nd hm (Nat.le_refl _)
+  exact ⟨this, certified3_TU this⟩
+
 /-! ### non-vacuity -/
 
 section Examples
@@ -575,5 +811,98 @@ example : checkTree [cyc0, cyc1] = .ok () ∧ isTU 1 1 cyc0.matrix.toDense = fal
   ⟨rfl, by decide, by decide, fun h => by have := certified_TU h; revert this; decide⟩
 
 end Examples
+
+/-! ### non-vacuity, Δ- and Y-sum nodes -/
+
+section Examples3
+
+/-- child record with special lines -/
+def kidS (rows cols : List Int) (sr sc : List (Option Nat)) (child : Nat) : ChildInfo :=
+  { rowsToParent := rows, colsToParent := cols, specialRows := sr, specialCols := sc, child := child }
+
+/-- `[[1,1],[1,1]]` -/
+def csrOnes22 : Csr := { numRows := 2, numCols := 2, nnz := 4, slice := [0, 2, 4], cols := [0, 1, 0, 1], vals := [1, 1, 1, 1] }
+
+/-- root: 1-sum `diag([[1,1],[1,1]], [[1,1],[1,1]])` of node 1 (a Δ-sum) and node 4 (a Y-sum) -/
+def s0 : FNode := nodeT 0 NodeType.onesum
+  { numRows := 4, numCols := 4, nnz := 8, slice := [0, 2, 4, 6, 8], cols := [0, 1, 0, 1, 2, 3, 2, 3],
+    vals := [1, 1, 1, 1, 1, 1, 1, 1] }
+  [kid [-1, -2] [1, 2] 1, kid [-3, -4] [3, 4] 4]
+/-- `[[1,1],[1,1]] = [[A, a bᵀ],[d cᵀ, D]]` with `A = a = b = c = d = D = ε = 1`: Δ-sum of
+`[[A,a,a],[cᵀ,0,ε]] = [[1,1,1],[1,0,1]]` (special row 1, special columns 1, 2) and
+`[[ε,0,bᵀ],[d,d,D]] = [[1,0,1],[1,1,1]]` (special row 0, special columns 0, 1) -/
+def s1 : FNode := nodeT 1 NodeType.deltasum csrOnes22
+  [kidS [-1, 0] [1, 0, 0] [some 1] [some 1, some 2] 2, kidS [0, -2] [0, 0, 2] [some 0] [some 0, some 1] 3]
+def s2 : FNode := nodeT 2 NodeType.unknown
+  { numRows := 2, numCols := 3, nnz := 5, slice := [0, 3, 5], cols := [0, 1, 2, 0, 2], vals := [1, 1, 1, 1, 1] } []
+def s3 : FNode := nodeT 3 NodeType.unknown
+  { numRows := 2, numCols := 3, nnz := 5, slice := [0, 2, 5], cols := [0, 2, 0, 1, 2], vals := [1, 1, 1, 1, 1] } []
+/-- the same matrix as a Y-sum of `[[A,a],[cᵀ,0],[cᵀ,ε]] = [[1,1],[1,0],[1,1]]` (special rows 1, 2, special column 1) and
+`[[ε,bᵀ],[0,bᵀ],[d,D]] = [[1,1],[0,1],[1,1]]` (special rows 0, 1, special column 0) -/
+def s4 : FNode := nodeT 4 NodeType.ysum csrOnes22
+  [kidS [-1, 0, 0] [1, 0] [some 1, some 2] [some 1] 5, kidS [0, 0, -2] [0, 2] [some 0, some 1] [some 0] 6]
+def s5 : FNode := nodeT 5 NodeType.unknown
+  { numRows := 3, numCols := 2, nnz := 5, slice := [0, 2, 3, 5], cols := [0, 1, 0, 0, 1], vals := [1, 1, 1, 1, 1] } []
+def s6 : FNode := nodeT 6 NodeType.unknown
+  { numRows := 3, numCols := 2, nnz := 5, slice := [0, 2, 3, 5], cols := [0, 1, 1, 0, 1], vals := [1, 1, 1, 1, 1] } []
+
+def tree3 : List FNode := [s0, s1, s2, s3, s4, s5, s6]
+
+/-- the example tree (1-sum over a Δ-sum node and a Y-sum node, four TU leaves) is accepted -/
+example : checkTree tree3 = .ok () := rfl
+
+/-- `deltasum_node_TU` applies to the Δ-sum node (its children are TU by evaluation) -/
+example : isTU 2 2 s1.matrix.toDense = true :=
+  deltasum_node_TU (nodes := tree3) (nd := s1) rfl rfl rfl
+    (kids_two (nodes := tree3) (c := kidS [-1, 0] [1, 0, 0] [some 1] [some 1, some 2] 2)
+      (d := kidS [0, -2] [0, 0, 2] [some 0] [some 0, some 1] 3) (k := s2) (l := s3) rfl rfl (by decide) (by decide))
+
+/-- `ysum_node_TU` applies to the Y-sum node -/
+example : isTU 2 2 s4.matrix.toDense = true :=
+  ysum_node_TU (nodes := tree3) (nd := s4) rfl rfl rfl
+    (kids_two (nodes := tree3) (c := kidS [-1, 0, 0] [1, 0] [some 1, some 2] [some 1] 5)
+      (d := kidS [0, 0, -2] [0, 2] [some 0, some 1] [some 0] 6) (k := s5) (l := s6) rfl rfl (by decide) (by decide))
+
+/-- the root is certified, constructor by constructor -/
+theorem tree3_certified : Certified3 tree3 s0 := by
+  have c2 : Certified3 tree3 s2 := .base (by decide)
+  have c3 : Certified3 tree3 s3 := .base (by decide)
+  have c5 : Certified3 tree3 s5 := .base (by decide)
+  have c6 : Certified3 tree3 s6 := .base (by decide)
+  have c1 : Certified3 tree3 s1 :=
+    .deltasum rfl rfl rfl (kids_two (nodes := tree3) (c := kidS [-1, 0] [1, 0, 0] [some 1] [some 1, some 2] 2)
+      (d := kidS [0, -2] [0, 0, 2] [some 0] [some 0, some 1] 3) rfl rfl c2 c3)
+  have c4 : Certified3 tree3 s4 :=
+    .ysum rfl rfl rfl (kids_two (nodes := tree3) (c := kidS [-1, 0, 0] [1, 0] [some 1, some 2] [some 1] 5)
+      (d := kidS [0, 0, -2] [0, 2] [some 0, some 1] [some 0] 6) rfl rfl c5 c6)
+  exact .onesum rfl rfl
+    (kids_two (nodes := tree3) (c := kid [-1, -2] [1, 2] 1) (d := kid [-3, -4] [3, 4] 4) rfl rfl c1 c4)
+
+example : isTU 4 4 [[1, 1, 0, 0], [1, 1, 0, 0], [0, 0, 1, 1], [0, 0, 1, 1]] = true := certified3_TU tree3_certified
+
+example : Certified3Id tree3 0 := ⟨s0, rfl, tree3_certified⟩
+
+/-- the old predicate embeds -/
+example : Certified3 tree t0 := certified3_of_certified tree_certified
+
+/-- the hypotheses of `tree_TU_partial3` are satisfiable: they hold for the example tree -/
+example : ∀ nd ∈ tree3, Certified3 tree3 nd ∧ isTU nd.matrix.numRows nd.matrix.numCols nd.matrix.toDense = true :=
+  tree_TU_partial3 rfl (by decide) (by decide) (by decide) (by decide)
+
+/-- Why `deltasum_shape` states the column equation only for nodes with at least one row: the checker removes every
+line listed in `specialCols`, not only the two that `composeDelta` uses.  Here both children are `[[1,0,1]]` (only the
+special row), the first child lists all three of its columns as special, the node is the 0×1 matrix, the composition
+is the 0×2 matrix `[]`, and the list is accepted although `(3-2)+(3-2) ≠ 1`.  (Harmless for total unimodularity: a
+matrix without rows is TU.) -/
+def z0 : FNode := nodeT 0 NodeType.deltasum
+  { numRows := 0, numCols := 1, nnz := 0, slice := [0], cols := [], vals := [] }
+  [kidS [0] [0, 0, 0] [some 0] [some 1, some 2, some 0] 1, kidS [0] [0, 0, 1] [some 0] [some 0, some 1] 2]
+def z1 (id : Nat) : FNode := nodeT id NodeType.unknown
+  { numRows := 1, numCols := 3, nnz := 2, slice := [0, 2], cols := [0, 2], vals := [1, 1] } []
+
+example : checkTree [z0, z1 1, z1 2] = .ok () ∧
+    ((z1 1).matrix.numCols - 2) + ((z1 2).matrix.numCols - 2) ≠ z0.matrix.numCols := ⟨rfl, by decide⟩
+
+end Examples3
 
 end Cmr.Props.C03TU
